@@ -157,8 +157,9 @@ class SimLoop(asyncio.BaseEventLoop):
         ext = self.externals
         if not ext:
             return
-        # when nothing else is runnable an arrival is forced (otherwise the world would stall)
-        force = not self._ready and not self._timers
+        # when nothing else is runnable *now* an arrival is forced: an external completion never
+        # waits for the clock (long-period timers such as keep-alives must not hold it back)
+        force = not self._ready
         if not force and not self.tape.chance(1, 3, "arrive?"):
             return
         k = self.tape.draw(len(ext), "arrive-which")
@@ -183,15 +184,13 @@ class SimLoop(asyncio.BaseEventLoop):
 
     def _iteration(self) -> bool:
         """One loop iteration.  Returns False at quiescence."""
+        ready = self._ready
         if self.policy == P1:
             self._maybe_arrival()
+            if not ready and self.externals:
+                return True        # the forced arrival resolved an already finished future: try again
         self._move_due_timers()
-        ready = self._ready
         if not ready:
-            if self.policy == P1 and self.externals:
-                self._maybe_arrival()
-                if ready:
-                    return True
             return bool(self._timers) and any(not h._cancelled for _, _, h in self._timers)
         if self.policy == P2:
             # any ready handle may run next; timers are re-examined after every handle
